@@ -154,3 +154,15 @@ check('C06',
       TRUSTED + 'gzip framing comes from Python\'s gzip module (opaque).',
       'TLA+ spec (Fasta, FastaReader, KmerSig) model-checked with TLC; TLC-generated file renderings with required signatures replayed on the code',
       'DESIGN.md 5 (C06)')
+
+check('C04',
+      'Exhaustive TLC model check of the loading pipeline (identifier-attribute check, null check, one lookup per signature id, '
+      'filter, count check) against the definitional pairing for all genome sets with null patterns and all duplicate-free signature-'
+      'id sequences incl. unrelated ids, plus the directory-listing rule over all subsets; conformance: real database directories '
+      '(sqlite through the repo\'s models, .gs through dump_signatures) for every order of 4 genome signatures + 1 unrelated one for each of '
+      'the four identifier attributes, every way of violating completeness, and all 64 subsets of a 6-entry listing; TLC judges the '
+      'load outcome, the genome/signature pairing, and - for loaded databases probed through query() with several chunk sizes - every '
+      'reported distance against the distance recomputed from the sequences of the genome\'s OWN contigs.',
+      TRUSTED + 'sqlite / HDF5 are used as builders; identifier values are tokenised injectively.',
+      'TLA+ spec (RefDbDef, RefDb, World) model-checked with TLC; TLC judges load outcomes, pairings and per-genome distances of real databases',
+      'DESIGN.md 5 (C04)')
